@@ -49,7 +49,7 @@ class C01(flatcheck.FlatCheck):
     theorems = ('TM.C01_step', 'TM.C01_history')
     streams = (
         # the domain of theorem C01_history: no raising callbacks, no re-entrant calls, unqueued, known events
-        flatcheck.Stream('main', lambda: flat.Knobs(max_models=2, p_unknown_event=0.0, max_history=10, p_custom_attr=0.15, p_ignore_flip=0.2),
+        flatcheck.Stream('main', lambda: flat.Knobs(max_models=2, p_unknown_event=0.0, max_history=10, p_custom_attr=0.15, p_ignore_flip=0.2, p_tuple_cbs=0.25),
                          monitor=monitor, nontrivial=nontrivial, quick=(16, 400), thorough=(64, 2500)),
         # malformed / neighbouring stream: correspondence only
         flatcheck.Stream('malformed', lambda: flat.Knobs(max_models=2, p_unknown_event=0.2, p_bad_dest=0.1, p_custom_attr=0.15, p_ignore_flip=0.2,
